@@ -2,7 +2,7 @@
   C03 — each segment starts at the VRAM address the document requests.
 -/
 import Props.Writer
-import Props.ImageSegment
+import Props.ImageDoc
 namespace Slinky.C03
 open Slinky W
 
@@ -110,7 +110,9 @@ recorded with exactly that address and the size `end − start`. -/
 theorem image_segment_start (objs : List InSec) (cx : Ctx) (seg : Segment) (secs : List Str)
     (ls : List Line) (h : writeSegment cx seg secs false = .ok ls) (st : St) (ho : Outside st) (k : List Line) :
     ∃ (start end_ al : Nat) (st' : St), st' = execK objs st ls k ∧ 1 ≤ al ∧ start ≤ end_ ∧
-      (∀ a, segAddr cx seg = some a → ∃ st₁ : St, st₁.dot = st.dot ∧ start = (operand st₁ a).getD st.dot) ∧
+      (∀ a, segAddr cx seg = some a → ∃ st₁ : St, st₁.dot = st.dot ∧ st₁.secs = st.secs ∧
+        (∀ n, (∀ l ∈ kindStart cx seg false, symOf l ≠ some n) → lookupLast n st₁.syms = lookupLast n st.syms) ∧
+        start = (operand st₁ a).getD st.dot) ∧
       (segAddr cx seg = none → start = Ld.alignUp st.dot al) ∧
       ((st'.dot = end_ ∧ ∃ lmaV, st'.secs = st.secs ++ [⟨c!"." ++ seg.name, start, end_ - start, lmaV, false, al⟩]) ∨
        (end_ = start ∧ st'.dot = st.dot ∧ st'.secs = st.secs)) := by
@@ -136,5 +138,37 @@ theorem image_noload_follows (objs : List InSec) (cx : Ctx) (seg : Segment) (sec
     rcases List.mem_append.1 hp with hp | hp
     · exact absurd hp hnp
     · exact (chainOk_mem _ _ _ _ h9 p hp).1
+
+
+open Ld in
+/-- **C03 in the linked image, for one emitted segment** (with an allocatable section): from
+any state of the link between output sections, the segment's allocatable output section is
+recorded at `aS`, where `aS` is the value of the requested address expression, or — without a
+request — the location counter (which the previous segment left at its VRAM end) rounded up to
+the segment start alignment and then to the alignment `al` of the segment's contents; the
+noload part lies behind the allocatable part (`aE ≤ dN`); and the VRAM end symbol holds the
+location counter behind the noload part rounded up to the segment end alignment, which is also
+where the next segment starts from. -/
+theorem image_segment_vram (objs : List InSec) (cx : Ctx) (seg : Segment) (cls alloc noload : List Line)
+    (hcls : ∀ l ∈ cls, OuterLine l ∧ symOf l ≠ some Ld.romPos)
+    (ha : writeSegment cx seg seg.allocSections false = .ok alloc)
+    (hn : writeSegment cx seg seg.noloadSections true = .ok noload)
+    (hne : seg.allocSections ≠ []) (hsy : cx.emitSecSyms = true)
+    (st : St) (ho : Outside st) (r : Nat) (hr : lookupLast Ld.romPos st.syms = some (.num r)) (k : List Line) :
+    ∃ (aS aE al dN : Nat) (st' : St) (lmaV : Option Nat),
+      st' = execK objs st (segmentLines cx seg cls alloc noload) k ∧ 1 ≤ al ∧
+      (∀ a, segAddr cx seg = some a → ∃ st₁ : St, st₁.dot = alignO seg.segmentStartAlign st.dot ∧ st₁.secs = st.secs ∧
+          (∀ n, n ≠ Ld.romPos → (∀ l ∈ cls, symOf l ≠ some n) → n ≠ cx.d.settings.style.segRomStart seg.name →
+            n ≠ cx.d.settings.style.segVramStart seg.name → (∀ l ∈ kindStart cx seg false, symOf l ≠ some n) →
+            lookupLast n st₁.syms = lookupLast n st.syms) ∧
+          aS = (operand st₁ a).getD (alignO seg.segmentStartAlign st.dot)) ∧
+      (segAddr cx seg = none → aS = Ld.alignUp (alignO seg.segmentStartAlign st.dot) al) ∧
+      aS ≤ aE ∧ aE ≤ dN ∧
+      st'.dot = alignO seg.segmentEndAlign dN ∧
+      lookupLast (cx.d.settings.style.segVramEnd seg.name) st'.syms = some (.num st'.dot) ∧
+      (⟨c!"." ++ seg.name, aS, aE - aS, lmaV, false, al⟩ : OutSec) ∈ st'.secs := by
+  obtain ⟨aS, aE, al, dN, st', lmaV, h1, _, h3, h4, h5, h6, h7, h8, _, _, h11, h12, _⟩ :=
+    segment_image objs cx seg cls alloc noload hcls ha hn hne hsy st ho r hr k
+  exact ⟨aS, aE, al, dN, st', lmaV, h1, h3, h4, h5, h6, h7, h8, h11, h12⟩
 
 end Slinky.C03
